@@ -259,3 +259,191 @@ Proof.
     pose proof (wsum_sumn g (w0 :: ws) 1 u v) as E. cbn [wsum Nat.add] in E.
     rewrite <- E. ring.
 Qed.
+
+(* ================= label classes and the binariser ================= *)
+
+Lemma classes_In labels c : In c (classes labels) <-> In c labels.
+Proof.
+  unfold classes. rewrite filter_In, in_seq, existsb_exists. split.
+  - intros [_ [x [Hx E]]]. apply Nat.eqb_eq in E. subst. exact Hx.
+  - intros H. split.
+    + pose proof (list_max_le labels (list_max labels)) as [L _]. specialize (L (Nat.le_refl _)).
+      rewrite Forall_forall in L. specialize (L c H). lia.
+    + exists c. split; [exact H|apply Nat.eqb_refl].
+Qed.
+
+Lemma classes_NoDup labels : NoDup (classes labels).
+Proof. unfold classes. apply NoDup_filter, seq_NoDup. Qed.
+
+Lemma lsum_ind_NoDup (h : nat -> Z) l cls : NoDup cls -> In l cls ->
+  lsum (fun c => ind (l =? c)%nat * h c) cls = h l.
+Proof.
+  induction cls as [|c cls IH]; intros ND Hin; [destruct Hin|].
+  rewrite lsum_cons. inversion ND as [|? ? Hnotin ND']; subst.
+  destruct (Nat.eqb_spec l c) as [->|Hne].
+  - rewrite lsum_zero; [cbn [ind]; ring|]. intros x Hx. destruct (Nat.eqb_spec c x); [subst; tauto|cbn [ind]; ring].
+  - rewrite IH; [cbn [ind]; ring|assumption|]. destruct Hin; [congruence|assumption].
+Qed.
+
+Lemma sumn_ind_classes (h : nat -> Z) l cls : NoDup cls -> In l cls ->
+  sumn (length cls) (fun i => ind (l =? nth i cls 0%nat)%nat * h (nth i cls 0%nat)) = h l.
+Proof.
+  intros ND Hin. rewrite (sumn_nth_lsum (fun c => ind (l =? c)%nat * h c) 0%nat cls).
+  apply lsum_ind_NoDup; auto.
+Qed.
+
+Definition labels_ok (labels cls : list nat) : Prop :=
+  NoDup cls /\ (forall l, In l labels -> In l cls) /\ labels <> [].
+
+Lemma labels_ok_classes labels : labels <> [] -> labels_ok labels (classes labels).
+Proof.
+  intros H. split; [apply classes_NoDup|]. split; [|exact H]. intros l Hl. apply classes_In. exact Hl.
+Qed.
+
+(* in all three shapes LabelBinarizer can return, the repaired matrix is the label/class indicator *)
+Lemma binarize_spec labels cls : labels_ok labels cls ->
+  forall u c, (u < length labels)%nat -> (c < length cls)%nat ->
+  mget (binarize labels cls) u c = ind (nth u labels 0%nat =? nth c cls 0%nat)%nat.
+Proof.
+  intros (ND & Hall & Hne) u c Hu Hc.
+  assert (Hn : (0 < length labels)%nat) by (destruct labels; [congruence|cbn; lia]).
+  assert (Hlu : In (nth u labels 0%nat) cls) by (apply Hall, nth_In; exact Hu).
+  unfold binarize.
+  destruct cls as [|c0 [|c1 [|c2 cls]]].
+  - cbn in Hc. lia.
+  - (* one class: an all-zero column, xor 1 *)
+    cbn [binarize_raw]. rewrite ncols_mk by exact Hn. cbn [Nat.eqb length].
+    assert (c = 0)%nat by (cbn in Hc; lia). subst c.
+    unfold xor1. rewrite !mget_mk by lia.
+    destruct Hlu as [E|[]]. cbn [nth]. rewrite <- E, Nat.eqb_refl. reflexivity.
+  - (* two classes: the column of the larger class, hstack([col ^ 1, col]) *)
+    cbn [binarize_raw]. rewrite ncols_mk by exact Hn. cbn [Nat.eqb length].
+    unfold hstack, xor1. cbn [Nat.add]. rewrite mget_mk by (cbn in Hc; lia).
+    assert (Hc01 : c0 <> c1) by (inversion ND as [|? ? Hni _]; subst; cbn in Hni; intuition).
+    destruct c as [|[|c]]; [| |cbn in Hc; lia]; cbn [Nat.ltb Nat.leb Nat.sub nth].
+    + rewrite !mget_mk by lia.
+      destruct Hlu as [E|[E|[]]]; rewrite <- E.
+      * rewrite Nat.eqb_refl. destruct (Nat.eqb_spec c0 c1); [congruence|reflexivity].
+      * rewrite Nat.eqb_refl. destruct (Nat.eqb_spec c1 c0); [congruence|reflexivity].
+    + rewrite mget_mk by lia. reflexivity.
+  - (* three or more classes: one indicator column per class *)
+    cbn [binarize_raw]. rewrite ncols_mk by exact Hn.
+    replace (length (c0 :: c1 :: c2 :: cls) =? 1)%nat with false by (cbn; reflexivity).
+    rewrite mget_mk by auto. reflexivity.
+Qed.
+
+(* (B^T M B)[i,j] = sum over the nodes labelled cls[i] and cls[j] *)
+Lemma collapse_spec M labels : labels <> [] ->
+  let cls := classes labels in
+  let n := length labels in
+  forall i j, (i < length cls)%nat -> (j < length cls)%nat ->
+  mget (collapse M labels) i j =
+  sumn n (fun u => sumn n (fun v =>
+    ind (nth u labels 0%nat =? nth i cls 0%nat)%nat * ind (nth v labels 0%nat =? nth j cls 0%nat)%nat
+    * mget M u v)).
+Proof.
+  intros Hne cls n i j Hi Hj. unfold collapse. destruct labels as [|l0 labels']; [congruence|].
+  set (labels := l0 :: labels') in *. fold cls. fold n.
+  pose proof (binarize_spec labels cls (labels_ok_classes labels Hne)) as HB.
+  rewrite mget_mmul by auto.
+  rewrite (sumn_ext _ _ (fun v => sumn n (fun u =>
+     ind (nth u labels 0%nat =? nth i cls 0%nat)%nat * ind (nth v labels 0%nat =? nth j cls 0%nat)%nat
+     * mget M u v))).
+  - apply sumn_swap.
+  - intros v Hv. rewrite mget_mmul by auto. rewrite HB by auto. rewrite sumn_mul_r.
+    apply sumn_ext. intros u Hu. unfold mtrans. rewrite mget_mk by auto. rewrite HB by auto. ring.
+Qed.
+
+(* ================= alignment with the dictionary ================= *)
+
+Lemma coo_dense_realign nt d cls G a b : (a < nt)%nat -> (b < nt)%nat ->
+  mget (coo_dense nt (realign_events d cls G)) a b =
+  sumn (length cls) (fun i => sumn (length cls) (fun j =>
+    ind (opt_eqb (lookup d (nth i cls 0%nat)) a) * ind (opt_eqb (lookup d (nth j cls 0%nat)) b) * mget G i j)).
+Proof.
+  intros Ha Hb. unfold coo_dense. rewrite mget_mk by auto. unfold realign_events.
+  rewrite lsum_flat_map, lsum_seq. apply sumn_ext. intros i Hi.
+  rewrite lsum_flat_map, lsum_seq. apply sumn_ext. intros j Hj.
+  destruct (Z.eqb_spec (mget G i j) 0) as [E|E].
+  - rewrite E. cbn. ring.
+  - rewrite lsum_cons. cbn [lsum fold_right]. cbn beta iota.
+    destruct (opt_eqb (lookup d (nth i cls 0%nat)) a), (opt_eqb (lookup d (nth j cls 0%nat)) b);
+      cbn [andb ind]; ring.
+Qed.
+
+(* sum over classes of [dict cls_i = a][lab = cls_i] F  =  [dict lab = a] F *)
+Lemma regroup (labels cls : list nat) (d : dict) (a : nat) (F : nat -> Z) :
+  labels_ok labels cls ->
+  sumn (length cls) (fun i => ind (opt_eqb (lookup d (nth i cls 0%nat)) a)
+        * sumn (length labels) (fun u => ind (nth u labels 0%nat =? nth i cls 0%nat)%nat * F u))
+  = sumn (length labels) (fun u => ind (opt_eqb (lookup d (nth u labels 0%nat)) a) * F u).
+Proof.
+  intros (ND & Hall & _).
+  rewrite (sumn_ext _ _ (fun i => sumn (length labels) (fun u =>
+     ind (nth u labels 0%nat =? nth i cls 0%nat)%nat * (ind (opt_eqb (lookup d (nth i cls 0%nat)) a) * F u)))).
+  2:{ intros i _. rewrite sumn_mul_l. apply sumn_ext. intros; ring. }
+  rewrite sumn_swap. apply sumn_ext. intros u Hu.
+  rewrite (sumn_ind_classes (fun c => ind (opt_eqb (lookup d c) a) * F u) (nth u labels 0%nat) cls ND).
+  - reflexivity.
+  - apply Hall, nth_In, Hu.
+Qed.
+
+Lemma tree_counts_spec ws nt d t a b : wf_tree t -> (a < nt)%nat -> (b < nt)%nat ->
+  mget (tree_counts ws nt d t) a b = tree_spec ws d t a b.
+Proof.
+  destruct t as [g labels]. intros [Hwf Hlen] Ha Hb. cbn [fst snd] in *.
+  unfold tree_counts, tree_events, tree_spec. cbn [fst snd].
+  rewrite coo_dense_realign by auto.
+  set (M := count_matrix (length g) (adj g) ws).
+  destruct labels as [|l0 labels'] eqn:El.
+  - (* no node at all *)
+    cbn in Hlen. rewrite <- Hlen. cbn. reflexivity.
+  - rewrite <- El in *. assert (Hne : labels <> []) by (rewrite El; discriminate).
+    pose proof (labels_ok_classes labels Hne) as Hok.
+    set (cls := classes labels) in *. set (n := length labels) in *.
+    (* columns first, then rows *)
+    rewrite (sumn_ext _ _ (fun i => ind (opt_eqb (lookup d (nth i cls 0%nat)) a) *
+       sumn n (fun u => ind (nth u labels 0%nat =? nth i cls 0%nat)%nat *
+          sumn n (fun v => ind (opt_eqb (lookup d (nth v labels 0%nat)) b) * mget M u v)))).
+    + rewrite (regroup labels cls d a _ Hok). fold n. rewrite <- Hlen. fold n.
+      apply sumn_ext. intros u Hu. rewrite sumn_mul_l. apply sumn_ext. intros v Hv.
+      unfold M. rewrite count_matrix_spec by (auto; lia). ring.
+    + intros i Hi.
+      rewrite (sumn_ext _ _ (fun j => ind (opt_eqb (lookup d (nth i cls 0%nat)) a) *
+         (ind (opt_eqb (lookup d (nth j cls 0%nat)) b) *
+            sumn n (fun v => ind (nth v labels 0%nat =? nth j cls 0%nat)%nat *
+               sumn n (fun u => ind (nth u labels 0%nat =? nth i cls 0%nat)%nat * mget M u v))))).
+      * rewrite <- sumn_mul_l. f_equal.
+        rewrite (regroup labels cls d b _ Hok). fold n.
+        rewrite (sumn_ext _ _ (fun v => sumn n (fun u =>
+           ind (nth u labels 0%nat =? nth i cls 0%nat)%nat *
+             (ind (opt_eqb (lookup d (nth v labels 0%nat)) b) * mget M u v)))).
+        2:{ intros v _. rewrite sumn_mul_l. apply sumn_ext. intros; ring. }
+        rewrite sumn_swap. apply sumn_ext. intros u _. rewrite sumn_mul_l. reflexivity.
+      * intros j Hj. rewrite collapse_spec by auto. fold cls. fold n.
+        rewrite (sumn_swap n n). rewrite !sumn_mul_l. apply sumn_ext. intros v _.
+        rewrite !sumn_mul_l. apply sumn_ext. intros u _. ring.
+Qed.
+
+Lemma mget_madd n m A B i j : (i < n)%nat -> (j < m)%nat ->
+  mget (madd n m A B) i j = mget A i j + mget B i j.
+Proof. intros. unfold madd. apply mget_mk; auto. Qed.
+
+Lemma fold_madd {T} nt (F : T -> matrix) ts : forall M0 a b, (a < nt)%nat -> (b < nt)%nat ->
+  mget (fold_left (fun acc t => madd nt nt acc (F t)) ts M0) a b
+  = mget M0 a b + lsum (fun t => mget (F t) a b) ts.
+Proof.
+  induction ts as [|t ts IH]; intros M0 a b Ha Hb.
+  - cbn [fold_left]. unfold lsum. cbn [fold_right]. ring.
+  - cbn [fold_left]. rewrite IH by auto. rewrite mget_madd by auto. rewrite lsum_cons. ring.
+Qed.
+
+Lemma global_counts_spec ws nt d trees a b :
+  Forall wf_tree trees -> (a < nt)%nat -> (b < nt)%nat ->
+  mget (global_counts ws nt d trees) a b = lsum (fun t => tree_spec ws d t a b) trees.
+Proof.
+  intros Hwf Ha Hb. unfold global_counts. rewrite fold_madd by auto.
+  unfold mzero. rewrite mget_mk by auto. rewrite Z.add_0_l.
+  apply lsum_ext. intros t Ht. apply tree_counts_spec; auto.
+  rewrite Forall_forall in Hwf. auto.
+Qed.
